@@ -510,6 +510,11 @@ class Interp:
             return a[1] == b[1]
         if (a[0] == "ext" and not a[2] and b[0] == "cls") or (b[0] == "ext" and not b[2] and a[0] == "cls"):
             return False
+        for x_, y_ in ((a, b), (b, a)):
+            if y_ == C_NONE and x_[0] == "fn" and x_[1].startswith(".") and x_[1][1:2].islower() and len(x_[2]) == 1 and x_[2][0][0] == "ext" and not x_[2][0][2] \
+                    and x_[2][0][1].split(".")[-1].split(" ")[-1][:1].isupper():
+                # a lower-case attribute of an imported class (KeyPair.from_bytes): a method, not None
+                return False
         if a[0] == "fn" and b[0] == "fn" and a[1].startswith(".") and b[1].startswith(".") and a[2] == b[2] and len(a[2]) == 1 and a[2][0][0] == "ext" and not a[2][0][2]:
             # two attribute reads of the same external class / module: the same name is the same value; two different
             # upper-case names are two different named constants (EVENT_WRITE / EVENT_READ)
@@ -2192,6 +2197,9 @@ class Interp:
         if name in ("str", "bytes", "bytearray", "int", "float", "bool") and a0 is None and not kwargs:
             import builtins
             return ("c", getattr(builtins, name)())         # the empty value of the type (a fresh, empty bytearray)
+        if name == "bool" and a0 is not None and len(args) == 1 and a0[0] != "c":
+            # bool(x) is the truth of x: the same cell a test of x would ask about
+            return ("c", bool(self.truth(a0, unparse(e.args[0]) if e is not None and getattr(e, "args", None) else "bool()")))
         if name in ("str", "int", "float", "bool", "bytes", "bytearray", "repr", "ord", "chr", "abs", "round", "hex", "format", "bin", "oct"):
             if a0 is not None and a0[0] == "c":
                 try:
